@@ -111,7 +111,8 @@ CHECKS = {
                      "unit module) and afterwards conn.active_qubits, the handles the program still holds and the controller's "
                      "allocated virtual ids must be the same set. In addition every configuration with budgets 2-4 is explored with a flush "
                      "after every operation until the state graph closes (2-65 states), i.e. for flushed histories of any length; "
-                     "sequential keep without a post routine (handle used at once) is part of the alphabet.",
+                     "sequential keep without a post routine (handle used at once) is part of the alphabet; two connections alive in one "
+                     "process must each agree with their own controller.",
                 note="depth 3-5 quick / 5-8 thorough per budget (state caps reported); EPR responses delivered on demand, all Phi+; open "
                      "known findings for NV-only SDK defects (non-sequential NV context deadlock, hard-coded NV memory ids, carbon-carbon "
                      "gate through an unallocated electron)",
@@ -124,8 +125,8 @@ CHECKS = {
                      "controller's state vector; after the subroutine the reduced state of every (local_i, remote_i) must be exactly "
                      "Phi+ (or the delivered state when nothing may be corrected) and unrelated qubits untouched. For measure-directly "
                      "results the exact joint distribution of (post-processed receiver outcome, creator outcome) is computed for the six "
-                     "named bases x four Bell states and must equal the Phi+ distribution; recv_measure runs through the pipeline for every "
-                     "Bell-state tuple and raw outcome with native and qlink-interface 1.0 responses; mismatching/unnamed bases must raise; "
+                     "named bases x four Bell states and must equal the Phi+ distribution; recv_measure and create_measure run through the pipeline for every "
+                     "Bell-state tuple and raw outcome with native and qlink-interface 1.0 responses (creator outcomes must never be post-processed); mismatching/unnamed bases must raise; "
                      "recv_measure goes through the pipeline for all tuples and raw outcomes.",
                 note="Bell states by name per response format; a receiver cannot name a basis through the API (six bases on EprMeasureResult "
                      "objects); programs the SDK cannot compile on NV (open C09 finding) are counted, not judged; open known findings: "
@@ -139,6 +140,7 @@ CHECKS = {
                      "enum-typed fields are enum members and request_to_qlink_1_0 accepts K and M requests with matching fields. With "
                      "responses carrying all-distinct field values, every Qubit.entanglement_info field, the qubit-to-pair association, "
                      "every EprKeepResult field and every EprMeasureResult field reads the same-named field of its own pair's response. "
+                     "The socket registration recorded by the stack must be (local id, remote node, remote id) as opened, with local id != remote id. "
                      "Every seventh request case is repeated with an EPRSocket object that served a connection of another network before.",
                 note="delivery schedule fixed to 'next pair when a wait blocks' (interleavings are C12); measurement_outcome compared only "
                      "where no Bell post-processing applies (C10); the R-to-qlink-1.0 conversion refusal is counted, not judged",
@@ -173,14 +175,15 @@ CHECKS = {
                      "that normalise their own scratch registers",
                 ref="3/C13"),
     "C14": dict(cat="model_checking", tech="explicit-state BFS over completed-SDK-operation histories on the builder's register economy until the state graph closes; nesting families executed on the real controller",
-                text="Breadth-first search over histories of 39 kinds of completed SDK operations (loops also with an explicit loop register, start and step) plus flush (forced at the latest after 15 "
+                text="Breadth-first search over histories of 41 kinds of completed SDK operations (loops also with an explicit loop register, start and step) plus flush (forced at the latest after 15 "
                      "operations) on one connection, hashing the builder's register economy; every transition compiles and serialises "
                      "the real subroutine. Every completed operation must return the pool to the state it found (no active register, "
                      "no measurement register beyond live RegFutures, no open context), also after a probing flush that follows every "
                      "transition (the state key does not hold pending commands); the state graph closes (136 states), which "
                      "gives the unbounded statement: sequences of any length keep compiling. Loops nested 1..14 deep with each "
                      "operation kind innermost are executed on the real controller and compared with direct evaluation, so a "
-                     "temporary overwriting a live enclosing loop counter is seen as a wrong sum.",
+                     "temporary overwriting a live enclosing loop counter is seen as a wrong sum. With a second connection alive in the "
+                     "process (inside a loop, holding registers) every operation must leave the same economy as alone.",
                 note="16 register measurements without a flush legitimately exhaust the M bank; fresh-name counters are not part of the "
                      "state; nesting beyond depth 12 may legitimately raise the documented out-of-registers error",
                 ref="3/C14"),
